@@ -148,8 +148,10 @@ def link_argv(arch, kind, row, m, v, obj, out, linker="wild"):
     """Command line (without the program name) for one member."""
     maxpage, secstart, relro, script = row
     a = []
-    if linker == "ld" and arch == "x86_64":
-        a += ["-m", "elf_x86_64"]
+    if arch == "x86_64":
+        a += ["-m", "elf_x86_64"] if linker == "ld" else []
+    else:
+        a += ["-m", "aarch64linux"]
     if kind == "static-pie":
         a += ["-static", "-pie"] + (["--no-dynamic-linker"] if linker == "ld" else [])
     elif kind == "pie":
@@ -254,7 +256,7 @@ def job(item):
                 keys = check_wellformed(e)
             except elfread.ElfError as ex:
                 keys = [("ehdr-parse", str(ex))]
-            if native and not keys:
+            if native and not any(k.startswith("ehdr") for k, _ in keys):
                 os.chmod(out, 0o755)
                 r = vlib.run([out], timeout=10)
                 nat = r[0]
@@ -354,9 +356,8 @@ def main():
                             if m % 32 == 1:
                                 refs.append("lld")
                         native = arch == "x86_64" and kind in ("static", "static-pie") and \
-                            row[3] is False and m & 1 and v == (1 if not thorough else v) and \
-                            any(k == 0 and sz >= 9 for k, _n, _t, _f, _a, sz in shape(m, v)) and \
-                            (thorough or m % 2 == 1 and row == DEFAULT_ROW)
+                            not row[3] and (thorough or (v == 1 and row == DEFAULT_ROW)) and \
+                            any(k == 0 and sz >= 9 for k, _n, _t, _f, _a, sz in shape(m, v))
                         n_ref_planned += len(refs)
                         plan.append((kind, row, refs, bool(native)))
                 items.append((arch, m, v, plan))
@@ -383,7 +384,7 @@ def main():
                 sh = shape(m, v)
                 rep = {"arch": arch, "subset_mask": m, "variant": v, "kind": kind, "row": row,
                        "describe": describe(arch, m, v, kind, row)}
-                tag = kind + ("+script" if row[3] else "")
+                tag = ("r" if kind == "r" else "exe") + ("+script" if row[3] else "")
                 if rc == 0:
                     stats["accepted"] += 1
                     per_kind[kind]["accepted"] += 1
@@ -459,6 +460,7 @@ def main():
         "native_runs": stats["native_runs"], "native_ok": stats["native_ok"],
         "subprocesses": refstats["ld"]["links"] + refstats["lld"]["links"] + stats["native_runs"]
         + len(arches),
+        "violation_keys": _key_counts(chk),
         "samples": samples or [describe("x86_64", 0x1ff, 0, "pie", DEFAULT_ROW)],
         "wall_links_s": round(time.time() - t0, 1),
     }
@@ -471,6 +473,15 @@ def main():
         "ordinary data'",
     ]
     chk.finish()
+
+
+def _key_counts(chk):
+    out = {}
+    for key, _what, _rep in chk.violations:
+        out[key] = out.get(key, 0) + 1
+    for key, n in chk.known_hits.items():
+        out[key] = out.get(key, 0) + n
+    return dict(sorted(out.items()))
 
 
 def _tolerated_reference_behaviour(key):
